@@ -271,6 +271,22 @@ package router
 //@   ensures [C07:invalid-address-has-no-group] addr.z == netip.z0 ==> len(mark) == 0
 //@   ensures [C07:label-of-the-containing-range] addr.z != netip.z0 ==> forall(k, 0, len(m.l.e), inRange(m.l, k, ipv6Of(addr)) ==> mark == m.s[m.l.e[k].v])
 //@   ensures [C07:no-range-no-group] addr.z != netip.z0 && !exists(k, 0, len(m.l.e), inRange(m.l, k, ipv6Of(addr))) ==> len(mark) == 0
+// loadIpMarkerFromReader: what it returns is a usable marker - a sorted, disjoint range list (Build) whose every
+// value is an index into the label table.
+//@ func loadIpMarkerFromReader(r io.Reader) (m *ipMarker, err error)
+//@   props C07 C01
+//@   requires r != nil
+//@   noterm
+//@   modifies nothing
+//@   ensures [C07:marker-is-well-formed] err == nil ==> m != nil && markerOK(m)
+//@   ensures err != nil ==> m == nil
+//@   loop 1:
+//@     modifies obj(listBuilder.b), listBuilder.b, obj(labels), obj(labelIndexes)
+//@     invariant listBuilder != nil && builderOK(listBuilder) && labelIndexes != nil && fresh(listBuilder) && (listBuilder.b == nil || fresh(listBuilder.b)) && fresh(labelIndexes) && (labels == nil || fresh(labels))
+//@     invariant loopFresh(listBuilder.b) || sameObj(listBuilder.b, loopOld(listBuilder.b))
+//@     invariant loopFresh(labels) || sameObj(labels, loopOld(labels))
+//@     invariant forall(k, 0, len(listBuilder.b), 0 <= listBuilder.b[k].v && listBuilder.b[k].v < len(labels))
+//@     invariant forallkey(k, labelIndexes, has(labelIndexes, k) ==> 0 <= labelIndexes[k] && labelIndexes[k] < len(labels))
 //@ func (c *cacheCtl) ipMark(addr netip.Addr) (mark string)
 //@   props C07
 //@   requires c != nil && (c.ipMarker == nil || markerOK(c.ipMarker))
